@@ -126,6 +126,7 @@ def run(ctx):
     # R: spec -> code
     tmpd = _mktempdir(prefix="entdump_")
     dump, pool = os.path.join(tmpd, "dump.json"), os.path.join(tmpd, "pool.json")
+    ctx.liveness("PersistentEntropy", dict(MaxDgms=2), ["Termination", "InputUntouched"])
     r = tlc.run_tlc("PersistentEntropy", workers=1, env={"DUMP_FILE": dump, "POOL_FILE": pool}, init="DumpInit", nxt="Next", constants=dict(MaxDgms=2), invariants=["PoolDump"], heap="2g")
     if r["error"] or not os.path.exists(dump) or not os.path.exists(pool):
         ctx.machinery_errors.append("PersistentEntropy dump failed:\n" + r["out"][-1500:])
